@@ -42,6 +42,9 @@ def pval(P, env, N):
     if P["k"] == "affine":
         V1 = _f32(P["V1"])
         return v0 + x @ V1.T
+    if P["k"] == "affine2":          # depends on two variables at once
+        x2 = np.asarray(env[P["var2"]], dtype=np.float64)
+        return v0 + x @ _f32(P["V1"]).T + x2 @ _f32(P["V2"]).T
     if P["k"] == "sin":
         amp = _f32(P["amp"]).reshape(1, -1)
         return v0 + amp * np.sin(float(np.float32(P["freq"])) * x[:, :1])
@@ -49,7 +52,9 @@ def pval(P, env, N):
 
 
 def pvars(P):
-    return set() if P is None or P["k"] == "const" else {P["var"]}
+    if P is None or P["k"] == "const":
+        return set()
+    return {P["var"], P["var2"]} if P["k"] == "affine2" else {P["var"]}
 
 
 def env_len(env):
